@@ -17,6 +17,7 @@ import signal
 from typing import Any
 
 from vlib import core, sers, streamdrive as sd
+from vlib import jraw  # ---- raw JSON framer ----
 
 from easynetwork.exceptions import DatagramProtocolParseError, StreamProtocolParseError
 from easynetwork.lowlevel._stream import BufferedStreamDataConsumer, StreamDataConsumer
@@ -25,7 +26,8 @@ from easynetwork.protocol import DatagramProtocol
 ID = "C06"
 CLAIMED = True
 TITLE = "Malformed input only ever surfaces as a parse error"
-REQUIRED_THEOREMS = ["C06_progress", "C06_items_bounded", "C06_only_parse_errors"]
+REQUIRED_THEOREMS = ["C06_progress", "C06_items_bounded", "C06_only_parse_errors",
+                     "C06_jraw_progress"]  # ---- raw JSON framer ----
 LEVEL_TEXT = (
     "Machine-checked proof (Lean 4): the modelled framers are total and every delivered item or error consumes at least one "
     "byte, so a skip-errors receive loop performs at most |stream| iterations; every exception class of the declared alphabet "
@@ -483,12 +485,21 @@ def generate(rng, tier: str, boost: int):
             # quadratic (slow, not a hang) when tens of kilobytes are drip-fed one byte at a time
             cuts = [max(c, 512) for c in cuts]
         yield {"spec": spec, "mode": mode, "data": data.hex(), "cuts": cuts, "hint": rng.choice([1, 8, 64, 16384]), "origin": origin}
+    # ---- raw JSON framer ---- malformed soup for the raw JSON framer (closers first, unbalanced, control bytes, lone backslashes)
+    for _ in range((900 if tier == "quick" else 30000) * boost):
+        spec = {"k": "json", "use_lines": False, "limit": rng.choice([4, 8, 16, 64, 256])}
+        data = jraw.gen_soup(rng)
+        r = rng.random()
+        cuts = [1] if r < 0.35 else [rng.randint(1, max(1, len(data))), 4096] if r < 0.6 else [rng.choice([1, 2, 3, 7, 64]) for _ in range(rng.randint(1, 5))]
+        yield {"spec": spec, "mode": "copy" if rng.random() < 0.85 else "oneshot", "data": data.hex(), "cuts": cuts, "hint": 1, "origin": "soup"}
+    # ---- end raw JSON framer ----
 
 
 def extra_coverage(stats) -> dict:
     from translate import exc_tables
     return {"exception_classes_raised_by_libraries": dict(sorted(RAISED.items())),
-            "alphabet_violations": exc_tables.outside_alphabet(RAISED)}
+            "alphabet_violations": exc_tables.outside_alphabet(RAISED),
+            "model_runs_by_framer": dict(sorted(sers.MODEL_RUNS.items()))}  # ---- raw JSON framer ----
 
 
 def after_batch() -> None:
